@@ -321,6 +321,10 @@ def g_word(r, lo=1, hi=7, extra=''):
 
 def g_clean_line(r):
     """line-safe value: interior/trailing blanks, '#', ':', non-ASCII (uncased) allowed"""
+    if r.random() < 0.06:
+        # a value that itself starts and ends with a double quote (and may look like a string literal with escapes):
+        # nothing in the format gives quotes a meaning
+        return r.choice(['"bob"', '"a b"', '"x\\n"', '"\\x41b"', '"it\'s"', '"%s"' % g_word(r), '"%s"' % g_word(r), '"a""b"', "'q'"])
     n = r.randint(1, 9)
     body = ''.join(r.choice(WORD + ' #:=!@é中😀\x01\x0b\xa0') for _ in range(n))
     first = r.choice(WORD + '#:é中')
@@ -1110,6 +1114,84 @@ def _resave_cases(I, r, n, out, ufile, bdir, tdir, breg):
                             % (which, ' (flush raised part-way)' if failed else '', C, want))
         out.append((c, [], lambda o: None))
 
+def big_resave_cases(I, r, n, out):
+    """databases larger than any buffer a writer might compare or copy in (several tens of KiB), saved, then changed
+    in one late record WITHOUT changing the size of the file (a new password hash, a capability / mask / policy swapped
+    for one of the same length), saved again and read back: the second save must not be mistaken for 'nothing changed'"""
+    ircdb = I.ircdb
+    for _ in range(n):
+        which = r.choice(['users', 'users', 'channels', 'ignores', 'networks'])
+        fn = fresh_file(I, 'big' + which)
+        if os.path.exists(fn): os.unlink(fn)
+        size = r.choice([70, 120, 300])
+        tail = r.randint(1, 3)              # how far from the end the changed record is
+        if which == 'users':
+            obj = ircdb.UsersDictionary()
+            for i in range(size):
+                u = ircdb.IrcUser(name='account%04d' % i); u.id = i + 1
+                u.setPassword('pw%d' % i, hashed=True); u.addCapability('cap%04d' % i)
+                obj.users[u.id] = u
+            obj.nextId = size
+            snap = lambda: sorted(canon_users(snap_users(obj)), key=lambda p: p[0])
+            def modify():
+                u = obj.users[size - tail + 1] if size - tail + 1 in obj.users else obj.users[size]
+                if r.random() < 0.5:
+                    u.setPassword('another password', hashed=True); return 'late password (same length hash)'
+                c = sorted(u.capabilities)[0]; u.removeCapability(c); u.addCapability('kap' + c[3:]); return 'late capability swapped (same length)'
+        elif which == 'channels':
+            obj = ircdb.ChannelsDictionary()
+            for i in range(size):
+                c = ircdb.IrcChannel(); c.addCapability('cap%04d' % i); c.addBan('bad%04d!*@*' % i, 2000000000 + i)
+                obj.channels['#chan%04d' % i] = c
+            snap = lambda: sorted(canon_chans(snap_chans(obj)), key=lambda p: p[0])
+            def modify():
+                c = obj.channels['#chan%04d' % (size - tail)]
+                if r.random() < 0.5:
+                    c.removeCapability('cap%04d' % (size - tail)); c.addCapability('kap%04d' % (size - tail)); return 'late capability swapped (same length)'
+                c.removeBan('bad%04d!*@*' % (size - tail)); c.addBan('bad%04d!*@*' % (size - tail), 2100000000 - tail); return 'late ban expiry (same digits)'
+        elif which == 'ignores':
+            obj = ircdb.IgnoresDB()
+            for i in range(size * 3):
+                obj.hostmasks['nick%04d!user@host.example' % i] = 0
+            snap = lambda: sorted(obj.hostmasks.items())
+            def modify():
+                k_ = 'nick%04d!user@host.example' % (size * 3 - tail)
+                items = list(obj.hostmasks.items()); obj.hostmasks.clear()
+                for h, e in items:
+                    obj.hostmasks['kick' + h[4:] if h == k_ else h] = e
+                return 'late hostmask swapped (same length)'
+        else:
+            obj = ircdb.NetworksDictionary()
+            for i in range(size):
+                n_ = obj.getNetwork('net%04d' % i); n_.addStsPolicy('irc%04d.example' % i, 'duration=1000,port=6697')
+            snap = lambda: sorted(canon_nets(drop_empty_nets(snap_nets(obj))), key=lambda p: p[0])
+            def modify():
+                n_ = obj.getNetwork('net%04d' % (size - tail)); n_.addStsPolicy('irc%04d.example' % (size - tail), 'duration=2000,port=6697')
+                return 'late STS policy (same length)'
+        obj.filename = fn
+        obj.flush()
+        size1 = os.path.getsize(fn)
+        A = snap()
+        what = modify()
+        B = snap()
+        exc = None
+        try: obj.flush()
+        except Exception as e_: exc = e_
+        size2 = os.path.getsize(fn)
+        ircdb.IrcUserCreator.u = None; ircdb.IrcChannelCreator.name = None; ircdb.IrcNetworkCreator.name = None
+        I.rec.clear()
+        obj.reload()
+        ircdb.IrcUserCreator.u = None; ircdb.IrcChannelCreator.name = None; ircdb.IrcNetworkCreator.name = None
+        C = snap()
+        ok = (C == B) and exc is None and I.rec.exc is None
+        diff = [(x, y) for x, y in zip(C, B) if x != y][:2]
+        c = Case({'db': which, 'op': 'resave-big', 'records': size, 'file_bytes': [size1, size2], 'then': what},
+                 kind='resave', tags=('resave-big', which, 'same-size' if size1 == size2 else 'size-changed'), oracle_ok=ok,
+                 oracle_msg='' if ok else 'a %d-byte %s file saved again after: %s (file then %d bytes)%s; the reload does not give the state '
+                            'that was saved: first differing records (read back, saved) %r' % (size1, which, what, size2,
+                            '; flush raised %r' % (exc,) if exc else '', diff))
+        out.append((c, [], lambda o: None))
+
 # ---------------------------------------------------------------------------------------------
 # finding witnesses (KNOWN_FINDINGS.json) — replayed on the real code every run
 # ---------------------------------------------------------------------------------------------
@@ -1189,6 +1271,7 @@ def explore(ctx, scale, seed_tag=''):
     ignores_file_cases(I, r, 150 * scale, out)
     micro_cases(I, r, 400 * scale, out)
     resave_cases(I, r, 120 * scale, out)
+    big_resave_cases(I, r, 4 * scale, out)
     return out
 
 def fill_model(triples):
